@@ -91,6 +91,13 @@ func (s *Store) Biz(xid string, branch int64) [3]int64 {
 	return [3]int64{s.biz[bkey{xid, branch, 1}], s.biz[bkey{xid, branch, 2}], s.biz[bkey{xid, branch, 3}]}
 }
 
+// Biz2: the second row of every business step (kinds 11, 12, 13)
+func (s *Store) Biz2(xid string, branch int64) [3]int64 {
+	s.mu.Lock()
+	defer s.mu.Unlock()
+	return [3]int64{s.biz[bkey{xid, branch, 11}], s.biz[bkey{xid, branch, 12}], s.biz[bkey{xid, branch, 13}]}
+}
+
 func (s *Store) lockedByOther(k fkey, sid int) bool {
 	s.mu.Lock()
 	defer s.mu.Unlock()
@@ -113,6 +120,8 @@ type Session struct {
 	FaultedKind int
 	// for a failing COMMIT: 1 = the first COMMIT of the delivery, 2 = the second (proxy driver: the fence transaction's)
 	FaultedCommitNo int
+	FaultErr        int  // error kind of a failure that hits a business statement: 0 generic, 1 MySQL 1205, 2 MySQL 1213, 3 driver.ErrBadConn
+	Fired           bool // the injected failure was reached
 }
 
 // op journals one driver operation and decides whether it fails by injection.
@@ -133,12 +142,25 @@ func (s *Session) op(kind int, key *fkey) error {
 	n := s.NOps
 	s.NOps++
 	if n == s.Fault {
+		defer func() { s.Fired = true }()
 		s.FaultedKind = kind
 		if kind == OpCommit {
 			for _, k := range s.Trace {
 				if k == OpCommit {
 					s.FaultedCommitNo++
 				}
+			}
+		}
+		// the ERROR KIND of the failure matters only to code that inspects it; at a business statement the
+		// harness injects the kinds a real MySQL connection produces there
+		if kind == OpBiz {
+			switch s.FaultErr {
+			case 1:
+				return &mysql.MySQLError{Number: 1205, Message: "Lock wait timeout exceeded; try restarting transaction"}
+			case 2:
+				return &mysql.MySQLError{Number: 1213, Message: "Deadlock found when trying to get lock; try restarting transaction"}
+			case 3:
+				return driver.ErrBadConn
 			}
 		}
 		return errInjected
@@ -198,6 +220,8 @@ const (
 )
 
 type parsed struct {
+	upsert bool     // insert ... on duplicate key update
+	ondup  []string // columns the upsert clause copies from the new values
 	kind   stmtKind
 	nolock bool     // select without FOR UPDATE: plain read, takes and waits for no lock
 	cols   []string // insert: column list; update: set columns then where columns; others: where columns
@@ -207,7 +231,8 @@ type parsed struct {
 var (
 	reSpace = regexp.MustCompile(`\s+`)
 	reEqQ   = regexp.MustCompile(`(\w+)\s*=\s*\?`)
-	reIns   = regexp.MustCompile(`^insert into (\S+) \(([^)]*)\) values \(([^)]*)\)$`)
+	reIns   = regexp.MustCompile(`^insert into (\S+) \(([^)]*)\) values \(([^)]*)\)( on duplicate key update (.*))?$`)
+	reOnDup = regexp.MustCompile(`^(\w+) = values\((\w+)\)$`)
 	reSel   = regexp.MustCompile(`^select (.*) from (\S+) where (.*?)( for update)?$`)
 	reUpd   = regexp.MustCompile(`^update (\S+) set (.*) where (.*)$`)
 	reDel   = regexp.MustCompile(`^delete from (\S+) where (.*)$`)
@@ -234,7 +259,22 @@ func (c *conn) parse(q string) parsed {
 			cols = append(cols, strings.TrimSpace(x))
 		}
 		if strings.Count(m[3], "?") == len(cols) {
-			return parsed{kind: sIns, cols: cols}
+			// optional MySQL upsert clause: `on duplicate key update c = values(c), ...`
+			var ondup []string
+			okClause := true
+			if m[4] != "" {
+				for _, a := range strings.Split(m[5], ",") {
+					mm := reOnDup.FindStringSubmatch(strings.TrimSpace(a))
+					if mm == nil || mm[1] != mm[2] {
+						okClause = false
+						break
+					}
+					ondup = append(ondup, mm[1])
+				}
+			}
+			if okClause {
+				return parsed{kind: sIns, cols: cols, ondup: ondup, upsert: m[4] != ""}
+			}
 		}
 	}
 	if m := reSel.FindStringSubmatch(n); m != nil && m[2] == tbl {
@@ -465,7 +505,24 @@ func (s *stmt) Exec(args []driver.Value) (driver.Result, error) {
 		if err := c.lock(k); err != nil {
 			return nil, err
 		}
-		if _, ok := c.view(k); ok {
+		if cur, ok := c.view(k); ok {
+			if s.p.upsert {
+				// MySQL: the existing row is updated with the listed columns, 2 rows affected (0 if nothing changes), no error
+				for _, col := range s.p.ondup {
+					switch col {
+					case "status":
+						cur.status, _ = asInt(m["status"])
+					case "action_name":
+						cur.action = asStr(m["action_name"])
+					case "gmt_modified":
+						cur.modify = asTime(m["gmt_modified"])
+					case "gmt_create":
+						cur.create = asTime(m["gmt_create"])
+					}
+				}
+				c.write(k, &cur)
+				return result{2}, nil
+			}
 			return nil, &mysql.MySQLError{Number: 1062, Message: fmt.Sprintf("Duplicate entry '%s-%d' for key 'PRIMARY'", k.xid, k.branch)}
 		}
 		stv, _ := asInt(m["status"])
